@@ -150,6 +150,11 @@ known("C05", r"^asm_data\|FCC/[^|]*\|(C05:fcc-bytes|C02:size|C05:accepted|C13:no
 known("C05", r"^asm_data\|FCC/[^|]*\|C05:fcc-bytes\|FCC/[^:]*:count=\d+,want=\d+:chars=((alnum|punct|semicolon|quote|slash),)+space,space(,[a-z]+)*$",
       "FCC: the FIRST run of blanks inside the string is replaced by one blank (the text is split into operand and comment "
       "at white space and glued together again): FCC 'a  0' emits 'a 0'", {"asm": [" FCC 'a  0'"]}, also=("C02",))
+known("C05", r"^asm_data\|FCC/delim/(59|92|96|123|124|125|126)\|(C13:no-internal-error|C05:fcc-bytes|C05:accepted)\|FCC-delim:(59|92|96|123|124|125|126):(escape:(IndexError|ValueTypeError)|mismatch|rejected:\w+):",
+      "FCC with ; \\ ` { | } or ~ as the delimiter is not recognised (the statement pattern does not admit these characters in "
+      "an operand, ; starts a comment): IndexError / ValueTypeError escape or nothing is emitted", {"asm": [" FCC |HELLO|"]}, also=("C13",))
+known("C05", r"^asm_data\|FCC/delim/\d+\|C05:fcc-bytes\|FCC-delim:\d+:mismatch:'two  gaps'$",
+      "first run of blanks collapses (see above), any delimiter", {"asm": [" FCC !two  gaps!"]})
 known("C05", r"^asm_data\|FCC/concrete/\d+\|C05:fcc-bytes\|FCC-concrete:mismatch:'(a  0|two   gaps  )'",
       "the same defect on concrete strings whose first gap is wider than one blank", {"asm": [" FCC \"a  0\""]})
 known("C05", r"^asm_data\|FCC/concrete/\d+\|(C05:fcc-bytes|C05:accepted|C13:no-internal-error)\|FCC-concrete:\w+:'(x;y|tab\\there|~\|\{\})'",
